@@ -12,63 +12,63 @@ CHECKS = {
     "C01": (
         "exploration",
         "reference-model monitor: per-mode transfer functions observed on the real solver (unit impulse, halo=0) against an independent Riccati/DOP853 integration of the boundary-value problem; error law E<=2*delta at every refinement and E(4n)<=max(E(n)/2.5, 0.1*delta)",
-        "Seeded random closed-form profile families x uniform/geometric/exp-mapped grids x n0 in {8,16,32} refined x4 (x16 on a subset in the thorough tier) x 6-12 cell grids, plus the arrays vertical_profiles(MOST/MOSTM/OAAHOC) produces on its own grid with the continuous counterpart rebuilt from z[0], plus a halo clause (impulse problem under an incommensurate halo vs the explicitly padded problem): 240 quick / 8000 thorough cases (a third with the cell size tuned so that the compared components reach shooting growth 13-18, an eighth on regional domains), ~50 resolved modes x 3 heights each; oracle self-tested per worker on constant coefficients. An error law with calibrated, frozen constants - not an asymptotic proof. Families include wind direction turning with height. All solver calls go through the monitored call path (argument-purity guard, value-preserving re-spelling of containers / memory layout chosen per case, decoy solves before 30 % of the cases, 30 % of the cases on the multi-thread kernel, finiteness of every returned field) and the shards alternate between the two kernel worlds.",
+        "Seeded random closed-form profile families x uniform/geometric/exp-mapped grids x n0 in {8,16,32} refined x4 (x16 on a subset in the thorough tier) x 6-12 cell grids, plus the arrays vertical_profiles(MOST/MOSTM/OAAHOC) produces on its own grid with the continuous counterpart rebuilt from z[0], plus a halo clause (impulse problem under an incommensurate halo vs the explicitly padded problem): 240 quick / 8000 thorough cases (a third with the cell size tuned so that the compared components reach shooting growth 13-18, an eighth on regional domains), ~50 resolved modes x 3 heights each; oracle self-tested per worker on constant coefficients. An error law with calibrated, frozen constants - not an asymptotic proof. Families include wind direction turning with height. All solver calls go through the monitored call path (argument-purity guard, value-preserving re-spelling of containers / memory layout chosen per case, decoy solves before 30 % of the cases, 20 % of the cases on the multi-thread kernel, finiteness of every returned field) and the shards alternate between the two kernel worlds.",
         "Trusted: SciPy DOP853 at rtol 1e-11; the calibrated constants C=2, 2.5, 0.1 (observed worst 0.69 and ratio 3.7 on the repaired tree).",
         "DESIGN.md section 4, C01",
     ),
     "C02": (
         "exploration",
         "relation monitor: every footprint call is paired with the forward dispersion run of the same inputs; sum(q0*F) vs forward flux at the tower cell, sum(q0*G) vs forward concentration above background",
-        "Seeded random set-ups stratified over the six halo classes (zero, default, sub-cell, commensurate, one-axis, incommensurate) x full/truncated/over-requested modes x even/odd grids x closures, synthetic anisotropic and constant profiles x sources x on-grid points x single/multi level x both precisions (192 quick / 48000 thorough set-ups, ~14 comparisons each); a run without an incommensurate-halo case is inconclusive. The weighted sum is also taken with utils.point_measurement on Fortran-ordered / transposed / strided copies of the source. All solver calls go through the monitored call path (argument-purity guard, value-preserving re-spelling of containers / memory layout chosen per case, decoy solves before 30 % of the cases, 30 % of the cases on the multi-thread kernel, finiteness of every returned field) and the shards alternate between the two kernel worlds.",
+        "Seeded random set-ups stratified over the six halo classes (zero, default, sub-cell, commensurate, one-axis, incommensurate) x full/truncated/over-requested modes x even/odd grids x closures, synthetic anisotropic and constant profiles x sources x on-grid points x single/multi level x both precisions (192 quick / 48000 thorough set-ups, ~14 comparisons each); a run without an incommensurate-halo case is inconclusive. The weighted sum is also taken with utils.point_measurement on Fortran-ordered / transposed / strided copies of the source. All solver calls go through the monitored call path (argument-purity guard, value-preserving re-spelling of containers / memory layout chosen per case, decoy solves before 30 % of the cases, 20 % of the cases on the multi-thread kernel, finiteness of every returned field) and the shards alternate between the two kernel worlds.",
         "Trusted: numpy summation; conditioning guard G<=18 and tolerance max(1e-9, 5000 eps e^G) calibrated on 3200 set-ups.",
         "DESIGN.md section 4, C02",
     ),
     "C03": (
         "exploration",
         "relation + reference-model monitor: conservation of the horizontal mean flux, resistance oracles (exact for constant Kz, nodal Riemann bracket, refinement against scipy quadrature), unit footprint sum, and halo == explicit pad / halo=0 / crop on the real solver",
-        "Seeded random set-ups: 160+160+20 quick / 28800+28800+3600 thorough cases for (conservation, halo equivalence per halo class in dispersion, re-centred dispersion and footprint mode, resistance refinement); identities at 1e-11 (double) / 2e-6 (single), halo equivalence with the conditioning-aware tolerance. A third of the constant-profile cases use integer-valued heights with dtype int64 and a quarter an integer-typed background. All solver calls go through the monitored call path (argument-purity guard, value-preserving re-spelling of containers / memory layout chosen per case, decoy solves before 30 % of the cases, 30 % of the cases on the multi-thread kernel, finiteness of every returned field) and the shards alternate between the two kernel worlds.",
+        "Seeded random set-ups: 160+160+20 quick / 28800+28800+3600 thorough cases for (conservation, halo equivalence per halo class in dispersion, re-centred dispersion and footprint mode, resistance refinement); identities at 1e-11 (double) / 2e-6 (single), halo equivalence with the conditioning-aware tolerance. A third of the constant-profile cases use integer-valued heights with dtype int64 and a quarter an integer-typed background. All solver calls go through the monitored call path (argument-purity guard, value-preserving re-spelling of containers / memory layout chosen per case, decoy solves before 30 % of the cases, 20 % of the cases on the multi-thread kernel, finiteness of every returned field) and the shards alternate between the two kernel worlds.",
         "Trusted: the nodal-bracket argument (any rule using a layer's own nodal values lies between the Riemann sums); scipy.integrate.quad.",
         "DESIGN.md section 4, C03",
     ),
     "C04": (
         "exploration",
         "relation monitor: superposition over three recorded calls, flux independence of the background, uniform background offset, bitwise independence of footprint mode from source values (zeros, 1e300, inf/nan, integers)",
-        "Seeded random set-ups x source pairs x coefficients over six decades x backgrounds x levels x halos x modes x numeric/analytic x both precisions, sources incl. pure sinks: 192 quick / 48000 thorough cases, 11 solver calls each. A third of the cases pass the background as Python int / numpy integer. All solver calls go through the monitored call path (argument-purity guard, value-preserving re-spelling of containers / memory layout chosen per case, decoy solves before 30 % of the cases, 30 % of the cases on the multi-thread kernel, finiteness of every returned field) and the shards alternate between the two kernel worlds.",
+        "Seeded random set-ups x source pairs x coefficients over six decades x backgrounds x levels x halos x modes x numeric/analytic x both precisions, sources incl. pure sinks: 192 quick / 48000 thorough cases, 11 solver calls each. A third of the cases pass the background as Python int / numpy integer. All solver calls go through the monitored call path (argument-purity guard, value-preserving re-spelling of containers / memory layout chosen per case, decoy solves before 30 % of the cases, 20 % of the cases on the multi-thread kernel, finiteness of every returned field) and the shards alternate between the two kernel worlds.",
         "Trusted: conditioning-aware tolerance relative to |a| max|S1| + |b| max|S2|.",
         "DESIGN.md section 4, C04",
     ),
     "C05": (
         "exploration",
         "reference-model monitor (closed-form half-space solution in Fourier space) for analytic mode + error-law monitor (L2 numeric-analytic error at n, 2n, 4n, 8n layers, gain from 2n to 8n >= 36) with halo, truncation, tower shift and crop switched on",
-        "Seeded random constant anisotropic profiles: 160 quick / 36000 thorough closed-form cases (every retained wavenumber strictly inside the cut-off) and 352 / 79200 four-level refinements on uniform, geometric and weakly stretched grids, one in eleven on a deep column (about 45 % qualify as resolved and above the rounding floor). The gain threshold 36 was calibrated on both trees: >= 57.5 on 1803 cases of the repaired tree, <= 23.3 on 894 cases of the pinned (second-order) tree. One refinement case in six is a deep column (fastest retained component decays by e^-40..e^-70 over the column) observed in its lowest eighth. All solver calls go through the monitored call path (argument-purity guard, value-preserving re-spelling of containers / memory layout chosen per case, decoy solves before 30 % of the cases, 30 % of the cases on the multi-thread kernel, finiteness of every returned field) and the shards alternate between the two kernel worlds.",
+        "Seeded random constant anisotropic profiles: 160 quick / 36000 thorough closed-form cases (every retained wavenumber strictly inside the cut-off) and 352 / 79200 four-level refinements on uniform, geometric and weakly stretched grids, one in eleven on a deep column (about 45 % qualify as resolved and above the rounding floor). The gain threshold 36 was calibrated on both trees: >= 57.5 on 1803 cases of the repaired tree, <= 23.3 on 894 cases of the pinned (second-order) tree. One refinement case in six is a deep column (fastest retained component decays by e^-40..e^-70 over the column) observed in its lowest eighth. All solver calls go through the monitored call path (argument-purity guard, value-preserving re-spelling of containers / memory layout chosen per case, decoy solves before 30 % of the cases, 20 % of the cases on the multi-thread kernel, finiteness of every returned field) and the shards alternate between the two kernel worlds.",
         "Trusted: the closed form written in vlib/oracles.py; threshold 36 is a calibrated constant.",
         "DESIGN.md section 4, C05",
     ),
     "C06": (
         "exploration",
         "relation monitor: source translation, tower translation, point reflection against the unit-source response (periodic grid, and on the overlap under every halo class), and re-centring (full relation on the periodic grid, overlap + centre value under a halo) over groups of recorded calls",
-        "Seeded random set-ups with dx != dy, even and odd sizes, shifts incl. 0, +-1, n-1, wrap-around: 192 quick / 48000 thorough cases x 6 relations; phase-only relations at 1e-11, relations through the vertical solve with the conditioning-aware tolerance. All solver calls go through the monitored call path (argument-purity guard, value-preserving re-spelling of containers / memory layout chosen per case, decoy solves before 30 % of the cases, 30 % of the cases on the multi-thread kernel, finiteness of every returned field) and the shards alternate between the two kernel worlds.",
+        "Seeded random set-ups with dx != dy, even and odd sizes, shifts incl. 0, +-1, n-1, wrap-around: 192 quick / 48000 thorough cases x 6 relations; phase-only relations at 1e-11, relations through the vertical solve with the conditioning-aware tolerance. All solver calls go through the monitored call path (argument-purity guard, value-preserving re-spelling of containers / memory layout chosen per case, decoy solves before 30 % of the cases, 20 % of the cases on the multi-thread kernel, finiteness of every returned field) and the shards alternate between the two kernel worlds.",
         "Trusted: numpy roll/indexing as the statement of the relation.",
         "DESIGN.md section 4, C06",
     ),
     "C07": (
         "exploration",
         "relation monitor: mirror in x / y (Fourier comparison off the Nyquist and cut-off wavenumbers on halo=0; exact plain flip on odd grids under every halo class), transpose, length-scale and velocity-scale similarity over pairs of recorded calls",
-        "Seeded random set-ups with Kx != Ky != Kz, oblique winds, non-square grids, all halo classes for transpose/scalings, scale factors over six decades: 192 quick / 48000 thorough cases x 10 solver calls. All solver calls go through the monitored call path (argument-purity guard, value-preserving re-spelling of containers / memory layout chosen per case, decoy solves before 30 % of the cases, 30 % of the cases on the multi-thread kernel, finiteness of every returned field) and the shards alternate between the two kernel worlds.",
+        "Seeded random set-ups with Kx != Ky != Kz, oblique winds, non-square grids, all halo classes for transpose/scalings, scale factors over six decades: 192 quick / 48000 thorough cases x 10 solver calls. All solver calls go through the monitored call path (argument-purity guard, value-preserving re-spelling of containers / memory layout chosen per case, decoy solves before 30 % of the cases, 20 % of the cases on the multi-thread kernel, finiteness of every returned field) and the shards alternate between the two kernel worlds.",
         "Trusted: non-power-of-two length scales only where int(halo/dx) is not on a knife edge.",
         "DESIGN.md section 4, C07",
     ),
     "C10": (
         "exploration",
         "relation monitor: every multi-level call is paired with the single-level calls and the full-column call of the same inputs; returned heights compared exactly",
-        "Seeded random set-ups x eight selection kinds (scalar, single, ascending, descending, shuffled, top-first, full, full reversed) x list/ndarray/numpy-integer forms x footprint/dispersion x numeric/analytic x both precisions x nz up to 64: 240 quick / 43200 thorough selections, ~22 slice comparisons each (all bitwise equal on the repaired tree). Level arrays come in signed and unsigned integer dtypes. All solver calls go through the monitored call path (argument-purity guard, value-preserving re-spelling of containers / memory layout chosen per case, decoy solves before 30 % of the cases, 30 % of the cases on the multi-thread kernel, finiteness of every returned field) and the shards alternate between the two kernel worlds.",
+        "Seeded random set-ups x eight selection kinds (scalar, single, ascending, descending, shuffled, top-first, full, full reversed) x list/ndarray/numpy-integer forms x footprint/dispersion x numeric/analytic x both precisions x nz up to 64: 240 quick / 43200 thorough selections, ~22 slice comparisons each (all bitwise equal on the repaired tree). Level arrays come in signed and unsigned integer dtypes. All solver calls go through the monitored call path (argument-purity guard, value-preserving re-spelling of containers / memory layout chosen per case, decoy solves before 30 % of the cases, 20 % of the cases on the multi-thread kernel, finiteness of every returned field) and the shards alternate between the two kernel worlds.",
         "Trusted: none beyond the solver itself (self-consistency relation); duplicated indices and tuples not generated.",
         "DESIGN.md section 4, C10",
     ),
     "C11": (
         "exploration",
         "relation monitor over an exhaustive small range: shape/coordinates, low-pass relation in Fourier space, registration against explicit pad / halo=0 / crop, over-request equivalence, exact surface-level identity (flux at z0 == source / unit pulse) when every mode is retained; ValueError/IndexError counted as accepted outcomes",
-        "quick: a 3240-tuple Latin subsample of nx, ny in 4..9 x even modes 2..12 per axis x five halos x two modes; thorough: all 40 960 tuples of the wider range nx, ny in 4..11, modes 2..16 (exhaustive over that range). Plus a coordinate clause over 1024 quick / 65536 thorough random (extent, cell count) pairs. All solver calls go through the monitored call path (argument-purity guard, value-preserving re-spelling of containers / memory layout chosen per case, decoy solves before 30 % of the cases, 30 % of the cases on the multi-thread kernel, finiteness of every returned field) and the shards alternate between the two kernel worlds.",
+        "quick: a 3240-tuple Latin subsample of nx, ny in 4..9 x even modes 2..12 per axis x five halos x two modes; thorough: all 40 960 tuples of the wider range nx, ny in 4..11, modes 2..16 (exhaustive over that range). Plus a coordinate clause over 1024 quick / 65536 thorough random (extent, cell count) pairs. All solver calls go through the monitored call path (argument-purity guard, value-preserving re-spelling of containers / memory layout chosen per case, decoy solves before 30 % of the cases, 20 % of the cases on the multi-thread kernel, finiteness of every returned field) and the shards alternate between the two kernel worlds.",
         "Trusted: numpy FFT for the spectral comparison; one fixed well-conditioned anisotropic column.",
         "DESIGN.md section 4, C11",
     ),
